@@ -153,3 +153,34 @@ def roundtrip_call(ctx, tool, game, opcode, sigtext, args, pre_calls=(), msg_mod
             try: obs['instr2'] = find_instr(ctx.read(out2), tool, game, opcode)
             except L.LayoutError as e: obs['layout_error2'] = str(e)
     return obs
+
+
+def parse_all_calls(text, opcode):
+    """Argument lists of every `ins_<opcode>(...)` call, in order."""
+    out = []
+    pos = 0
+    pat = re.compile(r'\bins_%d\(' % opcode)
+    while True:
+        m = pat.search(text, pos)
+        if not m: return out
+        args = parse_call_args(text[m.start():], opcode)
+        out.append(args)
+        pos = m.end()
+
+
+def unambiguous_repertoire():
+    """Characters c with a Shift-JIS encoding on which python's shift_jis and cp932 codecs agree and that round-trip (no NUL)."""
+    chars = {}
+    def ok(c):
+        try:
+            a = c.encode('shift_jis'); b = c.encode('cp932')
+        except UnicodeEncodeError:
+            return None
+        if a != b or a.decode('shift_jis') != c or b.decode('cp932') != c: return None
+        return a
+    for cp in list(range(0x20, 0x7f)) + list(range(0xff61, 0xffa0)) + list(range(0x3041, 0x3094)) + list(range(0x30a1, 0x30f7)) + list(range(0x4e00, 0x9fa0)) + [0x3000, 0x3001, 0x3002, 0x300c, 0x300d, 0x30fb, 0x30fc]:
+        c = chr(cp)
+        if c in '\\~': continue      # 0x5C / 0x7E are yen / overline in JIS X 0201: ambiguous
+        e = ok(c)
+        if e: chars[c] = e
+    return chars
